@@ -34,7 +34,7 @@ ASSUMPTIONS = ['default configuration (enforce_new_defaults and enforce_scope at
 LEVEL_TEXT = ('Seeded sampling of (defaults, operator files) with targeted shapes for each tool; every output is loaded by a real '
               'enforcer and its decisions compared with the input\'s. The suite only compares text on one small file per tool.')
 LEVEL_NOTE = 'trusted: a real Enforcer on the unmodified input as the oracle; the stevedore test manager stands for entry points'
-PLAN = {'quick': dict(shards=8, wall=80), 'thorough': dict(shards=16, wall=500)}
+PLAN = {'quick': dict(shards=8, wall=150), 'thorough': dict(shards=16, wall=500)}
 MIN = {'evaluations': 400, 'upgrade_runs': 100, 'convert_runs': 100, 'generator_runs': 100, 'redundant_reports': 30, 'tools_on_living_enforcer': 30,
        'decisions_compared': 20000, 'same_input_repeats': 30, 'same_input_steps': 80, 'same_input_decisions_compared': 10000}
 ANCHORS = ['oslo_policy.generator:_convert_policy_json_to_yaml', 'oslo_policy.generator:_upgrade_policies',
